@@ -13,7 +13,7 @@ CAN is a function of the string and max_param: A-sympy).  Ensures
 import ast
 import z3
 from pyvc.engine import Contract
-from pyvc.values import T, VInt, VLabel, VRef, VTuple, VNone, VFn, HSeq, Label, Fn, Unsupported, fresh_name
+from pyvc.values import T, VInt, VLabel, VRef, VTuple, VNone, VFn, VConc, HSeq, HObj, Label, Fn, Unsupported, fresh_name
 
 I = z3.IntSort()
 RAW = z3.Function("raw.string", I, Label)              # raw string of tree p (originals, then extras)
@@ -112,4 +112,94 @@ def extras_region_contract(with_extras=True):
                  ensures=ensures, setup=setup, region=_region, raises=lambda S, a, e: z3.BoolVal(False))
     c.region_name = "canonicalisation of originals and extras (%s)" % ("with extra trees" if with_extras else "no extra tree")
     c.live_ins = ("all_fun", "extra_orig", "nextra")
+    return c
+
+
+# ------------------------------------------------------------------ initial_sympify: the local loop is elementwise (C02, C03) -- the callee contract the region above uses
+PARSE = z3.Function("sympify.parse", Label, Fn)               # sympify(s, locals=locs) when it returns
+PARSEOK = z3.Function("sympify.returns", Label, z3.BoolSort())
+PRINT = z3.Function("ESRPrinter.doprint", Fn, Label)
+ZOO = z3.Const("sympy.zoo", Fn)
+
+
+def canl(t):
+    """the canonical string of a raw string: print(parse(s)), or print(zoo) when the parse raises"""
+    return z3.If(PARSEOK(t), PRINT(PARSE(t)), PRINT(ZOO))
+
+
+def _isym_loop_region(fnode):
+    for k, s in enumerate(fnode.body):
+        if isinstance(s, ast.For) and any(isinstance(n, ast.Call) and ast.unparse(n.func).endswith("sympify") for n in ast.walk(s)) and \
+                any(isinstance(n, ast.Call) and ast.unparse(n.func).endswith("doprint") for n in ast.walk(s)):
+            pre = [fnode.body[k - 1]] if k > 0 and isinstance(fnode.body[k - 1], ast.Assign) and "ESRPrinter" in ast.unparse(fnode.body[k - 1].value) else []
+            return pre + [s]
+    return None
+
+
+def initial_sympify_loop_contract(save_sympy=True):
+    """Every string of the rank's list is replaced, position by position, by the printed form of its own parse (of zoo when the parse raises): the list keeps its length and
+    entry k afterwards is a function of entry k before -- nothing is moved, dropped or taken from a neighbour.  With save_sympy every string of the result is a key of the
+    dictionary, and the value stored under a key is an expression whose printed form is that key."""
+    from pyvc.engine import LoopSpec
+    from pyvc.values import HDict, VBool
+    N = z3.Int("nlocal")
+    S0 = z3.Function("raw.local", I, Label)
+
+    def mk_list(eng, st):
+        return st.alloc(HSeq(N, lambda k: VLabel(S0(k)), etype=T.label))
+
+    def mk_dict(eng, st):
+        if not save_sympy:
+            return VNone()
+        return st.alloc(HDict(lambda q: z3.BoolVal(False), lambda q: VFn(z3.Const("nothing", Fn)), None, T.label, T.fn))
+
+    def lab(v):
+        if isinstance(v, VLabel):
+            return v.t
+        raise Unsupported("a string is expected: %r" % (v,))
+
+    def setup(eng, st, args):
+        eng.may_raise_calls = {"sympify"}
+        eng.may_raise_conds = {"sympify": lambda e, s, c: z3.Not(PARSEOK(lab(e.ev(c.args[0], s))))}
+        eng.models["sympy.sympify"] = lambda e, s, a, kw, node: VFn(PARSE(lab(a[0])))
+        eng.methods["sympify"] = lambda e, s, recv, a, kw, node: VFn(PARSE(lab(a[0])))
+        eng.models["ESRPrinter"] = lambda e, s, a, kw, node: VFn(z3.Const("printer", Fn))
+        def m_doprint(e, s, recv, a, kw, node):
+            v = a[0]
+            if isinstance(v, VFn):
+                return VLabel(PRINT(v.t))
+            if hasattr(v, "val") and isinstance(v.val, VFn):
+                return VLabel(PRINT(v.val.t))
+            if isinstance(v, VConc) and v.name == "method:zoo":
+                return VLabel(PRINT(ZOO))            # the attribute sympy.zoo (complex infinity): what a string that does not parse is replaced by
+            raise Unsupported("doprint of %r (%s)" % (v, getattr(v, "name", "")))
+        eng.methods["doprint"] = m_doprint
+        eng.globals_extra = {}
+        st.assume(N >= 0)
+
+    def state(S, i):
+        o = S.seq(S.var("str_fun"))
+        k = z3.Int("k!is")
+        out = [("the list keeps its length", o.len == N),
+               ("entries already visited hold the canonical string of what was there, the others are untouched",
+                z3.ForAll([k], z3.Implies(z3.And(0 <= k, k < N), o.get(k).t == z3.If(k < i, canl(S0(k)), S0(k)))))]
+        if save_sympy:
+            d = S.st.heap[S.var("sym_fun").addr]
+            q = z3.Const("q!is", Label)
+            out.append(("every visited entry's string is a key of the dictionary", z3.ForAll([k], z3.Implies(z3.And(0 <= k, k < i), d.has(canl(S0(k)))))))
+            out.append(("the expression stored under a key prints as that key", z3.ForAll([q], z3.Implies(d.has(q), PRINT(d.val(q).t) == q))))
+        return out
+
+    def inv(S, st):
+        return state(S, S.i(S.var("__i")))
+
+    def ensures(S, a, res):
+        return state(S, N)
+
+    c = Contract("initial_sympify", {"str_fun": mk_list, "sym_fun": mk_dict, "locs": T.fn, "save_sympy": lambda e, s: VBool(save_sympy)},
+                 ensures=ensures, setup=setup, region=_isym_loop_region, loops=None, raises=lambda S, a, e: z3.BoolVal(False),
+                 globals_={"sympy": lambda e, s: s.alloc(HObj("module", {"zoo": VFn(ZOO)}))})
+    c.loop_select = lambda node: LoopSpec(inv)
+    c.region_name = "local loop (%s)" % ("expressions kept" if save_sympy else "strings only")
+    c.live_ins = ("str_fun",)
     return c
